@@ -129,7 +129,12 @@ def run(ctx):
             base = "Checkout_V%d" % rng.randrange(100)
             salts = [base, base.lower()]
         two = fam == "multi-field"
-        groups = ", ".join('"g%d" weighted %s' % (i, w) for i, w in enumerate(ws))
+        # a label may be declared more than once (its share is the sum of its entries); 1 and 1.0 are different labels
+        if k % 4 == 2 and len(ws) < 3:
+            ws = list(ws) + ["2", "1"]
+        nlab = len(ws) if k % 4 != 2 else max(2, len(ws) // 2)
+        lab = lambda i: i % nlab
+        groups = ", ".join('"g%d" weighted %s' % (lab(i), w) for i, w in enumerate(ws))
         evs = [ExperimentEvaluator('def e { salt: "%s" splitters: %s return %s }' % (s, "uid, cc" if two else "uid", groups)) for s in salts]
         pop = population(rng, fam, size)
         n = len(ws)
@@ -137,6 +142,9 @@ def run(ctx):
         table = [[0] * n for _ in range(n)]
         fracs = [gen.weight_fraction(w) for w in ws]
         total = sum(fracs)
+        if nlab != len(ws):
+            ctx.count("repeated-labels")
+            fracs = [sum(f for j, f in enumerate(fracs) if lab(j) == i) for i in range(nlab)] + [0] * (len(ws) - nlab)
         for uid in pop:
             env = {"uid": uid[0], "cc": uid[1]} if two else {"uid": uid}
             idx = []
@@ -145,7 +153,7 @@ def run(ctx):
                 i = int(g[1:])
                 h = gen.published_position(s, ["uid", "cc"] if two else ["uid"], env)
                 exact, allowed = gen.spec_indices(ws, h)
-                if i not in allowed:
+                if i not in {lab(j) for j in allowed}:
                     ctx.violation(f"assignment differs from the published scheme: unit {env} salt {s!r} weights {ws}: got g{i}, expected g{exact}",
                                   {"env": common.enc_env(env), "salt": s, "weights": ws, "got": i, "expected": exact})
                 counts[si][i] += 1
